@@ -34,6 +34,7 @@ import CoreDhcp.Props.GenLoadPlugins
 import CoreDhcp.Props.GenRange4
 import CoreDhcp.Props.GenFilePlugin
 import CoreDhcp.Props.GenConfig
+import CoreDhcp.Props.GenPrefix6
 open CoreDhcp
 #print axioms C20_offset_exact
 #print axioms C20_offset_symm
@@ -279,3 +280,17 @@ open CoreDhcp
 #print axioms GEN_cfg_bad_version
 #print axioms GEN_cfg_load_v6_first
 #print axioms GEN_cfg_parseConfig_plugins_first
+#print axioms GEN_pd_loop1_eq
+#print axioms GEN_pd_loop2_eq
+#print axioms GEN_pd_loop3_model
+#print axioms GEN_pd_loop3_eq
+#print axioms GEN_pd_handleIAPD_model
+#print axioms GEN_pd_handleIAPD_gen
+#print axioms GEN_pd_handleIAPD_eq
+#print axioms GEN_pd_handleMsg_model
+#print axioms GEN_pd_handleMsg_gen
+#print axioms GEN_pd_handleMsg_eq
+#print axioms GEN_pd_handle_undecapsulated
+#print axioms GEN_pd_handle_total
+#print axioms GEN_pd_setup_eq
+#print axioms GEN_pd_setup_arity
